@@ -23,3 +23,4 @@ try:
             print(l[:300])
 finally:
     subprocess.run(['git','-C','/repo','checkout','--','.'])
+    subprocess.run('cd /verif/sim && cargo build --release --offline', shell=True, capture_output=True)
